@@ -51,19 +51,33 @@ def _cases(shard):
                op('next', slot), op('next', slot), op('next', slot), op('next', slot),
                op('idx', slot, st.integers(-4, 12)), op('slice', slot, st.integers(-3, 8), st.integers(-3, 10)),
                op('len', slot), op('list', slot),
-               op('kill_leaf', slot), op('grow_leaf', slot), op('kill_next_leaf', slot), op('kill_key', slot),
+               op('kill_leaf', slot), op('grow_leaf', slot), op('grow_leaf', slot, st.sampled_from(['end_first', 'desc'])),
+               op('kill_next_leaf', slot), op('kill_key', slot),
                op('kill_tail', slot, st.integers(1, 3)), op('kill_head', slot, st.integers(1, 3)),
                op('idx', slot, st.integers(8, 30)), op('idx', slot, st.integers(-30, -1))]
         mut = H.op_strategy(fam, kind, ktype, 0)
         n = len(dom)
         start = draw(st.integers(0, n - 1))
         vt = draw(F.value_tokens(fam)) if is_map else None
-        fill = [(['set', dom[(start + j) % n], vt] if is_map else ['add', dom[(start + j) % n]])
+        # distinct values per key (unless the drawn flag says otherwise): a step that pairs a key with the value
+        # of another key is then visible
+        distinct = draw(st.booleans()) or draw(st.booleans())
+        step = draw(st.sampled_from([1, 2, 2, 3]))     # gaps, so that keys can later be inserted INTO a leaf
+        fill = [(['set', dom[(start + j * step) % n], (j + 1 if distinct else vt)] if is_map
+                 else ['add', dom[(start + j * step) % n]])
                 for j in range(draw(st.integers(3, 22)))]
         first = draw(op('mk', slot, st.sampled_from(kinds), B, B, st.booleans(), st.booleans()))
         nxt = op('next', slot)
         body = draw(st.lists(st.one_of(*(cur + [nxt] * 10 + [mut] * 12)), min_size=12, max_size=60))
-        return {'cfg': cfg, 'ops': fill + [first] + body}
+        # half of the cases open with the pattern "park the cursor p entries into its first leaf, make that leaf
+        # grow (split) under it, step on": the parked position then has new neighbours in front of and behind it
+        pattern = []
+        if draw(st.booleans()):
+            sl = first[1]
+            mid = draw(st.sampled_from([['grow_leaf', sl], ['grow_leaf', sl, 'end_first'], ['grow_leaf', sl, 'desc'],
+                                        ['grow_leaf', sl, 'end_first'], ['kill_key', sl], ['kill_leaf', sl]]))
+            pattern = [['next', sl]] * draw(st.integers(1, 4)) + [mid] + [['next', sl]] * draw(st.integers(1, 6))
+        return {'cfg': cfg, 'ops': fill + [first] + pattern + body}
 
     return case()
 
@@ -94,6 +108,7 @@ def run_case(case, ctx):
         t = lv.t
         ever_keys = []
         ever_vals = []
+        ever_pairs = []         # (key, value) pairs that are or were entries
         cursors = {}
         mutations = 0
         nontrivial = False
@@ -105,6 +120,12 @@ def run_case(case, ctx):
         def known_val(v):
             return any(v == x or v is x for x in ever_vals) or any(v == x for x in lv.model.values())
 
+        def known_pair(r):
+            k, v = r
+            if k in lv.model and (lv.model[k] == v or lv.model[k] is v):
+                return True
+            return any(k == a and (v == b or v is b) for a, b in ever_pairs)
+
         def check_entry(cur, r, what, sig):
             ok = True
             if cur.kind == 'k':
@@ -115,6 +136,9 @@ def run_case(case, ctx):
                 ok = known_val(r)
             else:
                 ok = isinstance(r, tuple) and len(r) == 2 and known_key(r[0]) and known_val(r[1])
+                if ok and not known_pair(r):
+                    raise Violation('%s yielded the pair %r: key and value are known, but this pair is not and never '
+                                    'was an entry of the container' % (what, r), dict(sig, what='bogus-pair'))
                 if ok:
                     cur.last_key = r[0]
             if not ok:
@@ -146,6 +170,8 @@ def run_case(case, ctx):
                     ever_keys.append(k)
                 if is_map and not any(v is x for x in ever_vals):
                     ever_vals.append(v)
+                if is_map and not any(k == a and (v == b or v is b) for a, b in ever_pairs):
+                    ever_pairs.append((k, v))
             if name == 'mk':
                 _, slot, ck, mn, mx, exmin, exmax = op
                 kmn = F.dk(fam, mn) if mn is not None else None
@@ -243,7 +269,21 @@ def run_case(case, ctx):
                         elif name == 'grow_leaf':
                             n = 0
                             lo = F.sortkey(lvs[idx][0])
-                            for tok in F.domain(fam, lv.ktype):
+                            hi = F.sortkey(lvs[idx][-1])
+                            # first the gaps INSIDE the parked leaf (they make it split under the cursor and put new
+                            # entries in front of / behind the parked position), then whatever follows it
+                            inside = [tok for tok in F.domain(fam, lv.ktype)
+                                      if F.dk(fam, tok) not in lv.model and lo <= F.sortkey(F.dk(fam, tok)) <= hi]
+                            order = op[2] if len(op) > 2 else 'asc'
+                            if order != 'asc':
+                                # first a key right BEHIND the leaf's last key (it still belongs to this leaf and makes
+                                # it split behind the cursor), then the gaps inside, ascending or descending
+                                nxt = F.sortkey(lvs[idx + 1][0]) if idx + 1 < len(lvs) else None
+                                behind = [tok for tok in F.domain(fam, lv.ktype)
+                                          if F.dk(fam, tok) not in lv.model and F.sortkey(F.dk(fam, tok)) > hi
+                                          and (nxt is None or F.sortkey(F.dk(fam, tok)) < nxt)][:1]
+                                inside = behind + (inside if order == 'end_first' else inside[::-1])
+                            for tok in inside + list(F.domain(fam, lv.ktype)):
                                 k = F.dk(fam, tok)
                                 if k not in lv.model and F.sortkey(k) >= lo and n < 4:
                                     if is_map:
